@@ -357,4 +357,37 @@ theorem silent_peer_after_coincidence_is_detected :
     c.frames = [.ping] ∧ c.closed = true ∧ c.closeCode = some 1006 ∧ c.trClosing = true ∧ c.now = 5000 := by
   decide +kernel
 
+/-! ## two more kernel-checked schedules (the oracle judges both on the real objects) -/
+
+/-- server close() at t=0 with a 1500 ms close timeout; the peer sends TEXT at t=1375 — -/
+def chattyPeerLabels : List Label :=
+  [.call 0 (.close 1000), .tick, .adv 1375, .peer .text, .tick, .tick, .tick, .tick]
+
+/-- **The server's close deadline is not restarted by messages**: with one `timeout()` around the whole
+wait loop, close() returns `True` at exactly t = 1500 ms with code 1006 although a TEXT frame arrived at 1375 ms.
+(The client re-arms per message: `client_close_timeout_restarts_per_message`.) -/
+theorem server_close_deadline_not_restarted :
+    let s := run (init srvCfg) chattyPeerLabels
+    (getT s 0).outcome = some (.closeRet true) ∧ s.now = 1500 ∧ s.closeCode = some 1006 ∧ s.trClosing = true := by
+  decide +kernel
+
+/-- heartbeat 2000 ms, autoclose off: receive() hands the peer's CLOSE(4000) to the application -/
+def peerCloseNoAutoclose (side : Side) : Cfg := { hbCfg side with autoclose := false }
+
+/-- **Closing state switches the heartbeat off** (`_set_closing` → `_cancel_heartbeat`), both sides: after receive()
+returned the peer's CLOSE no timer is left and nothing is ready — no PING can follow the peer's CLOSE; a later
+close() ends the session with the peer's code and exactly one CLOSE frame. -/
+theorem closing_state_cancels_heartbeat :
+    let ls : List Label := [.call 0 .recv, .tick, .peer (.close 4000), .tick, .tick, .tick]
+    let s := run (init (peerCloseNoAutoclose .server)) ls
+    let c := run (init (peerCloseNoAutoclose .client)) ls
+    let fin : List Label := [.adv 5000, .call 1 (.close 1000), .tick, .tick, .tick]
+    let s' := run s fin
+    let c' := run c fin
+    s.closing = true ∧ s.closed = false ∧ s.timers = [] ∧ s.ready = [] ∧
+    c.closing = true ∧ c.closed = false ∧ c.timers = [] ∧ c.ready = [] ∧
+    s'.closed = true ∧ s'.closeCode = some 4000 ∧ s'.frames = [.close 1000] ∧ s'.exc = none ∧
+    c'.closed = true ∧ c'.closeCode = some 4000 ∧ c'.frames = [.close 1000] ∧ c'.exc = none := by
+  decide +kernel
+
 end Aio.C13
